@@ -159,6 +159,11 @@ def _invalidate_on_write(col, rule="C07.R1"):
                     good.append(i)
             skips = _key_not_index_branches(sx, key, kind)
             after_ok = bool(good) and cfg.must_pass(nid, cfg.EXIT, good + skips) and any(cfg.path_avoiding(nid, i, []) for i in good)
+            # `column[:] = values` converts element by element and can raise having overwritten the leading rows: only an
+            # invalidation that has already happened covers that exit
+            partial = kind == "cell" and ev.kind == "store" and any(t_[:1] == ("sub",) and t_[2][:1] == ("slice",) for t_ in S.alts(ev.target))
+            if partial and after_ok:
+                after_ok = False
             before_ok, why = False, ""
             if not after_ok:
                 pre = [i for i in good if cfg.path_avoiding(i, nid, [])]
@@ -168,6 +173,8 @@ def _invalidate_on_write(col, rule="C07.R1"):
                     before_ok = False
                     why = ("the cache is refilled between the invalidation and the write (the row is resolved by name first): "
                            f"{[sx.loc(f) for f in refill][:3]}")
+                elif not before_ok and partial and good:
+                    why = "the slice assignment can raise half-way (element-wise conversion); the invalidation only follows it"
                 elif not before_ok:
                     cond_inval = [i for i in inval if i not in good]
                     why = "no invalidation that fires for the index column follows, or precedes, this write on every path" + \
@@ -618,7 +625,153 @@ def _derived_tables_parse_alike(col, rule="C07.R3"):
         raise AnalysisError("Table._select*/_copy: no constructor call of the derived table found (cannot decide)")
 
 
+def _is_self_attr(n, names=None):
+    return isinstance(n, ast.Attribute) and isinstance(n.value, ast.Name) and n.value.id == "self" and (names is None or n.attr in names)
+
+
+def _cache_written_only_by_its_builder(col, rule="C07.R5"):
+    """the row-name cache holds exactly what _make_cache computed from the index column: nothing else adds, replaces or removes an
+    entry of the dictionaries _get_cache() hands out (an entry added elsewhere is either already there or names no row)"""
+    repo = col.repo
+    mod = repo.cls("Table").module
+    MUT = ("update", "setdefault", "pop", "popitem", "clear", "__setitem__", "__delitem__")
+    n_fn = n_use = 0
+    for c in mod.classes.values():
+        for mname, fn in c.methods.items():
+            if mname in ("_make_cache",):
+                continue
+            n_fn += 1
+            tracked = set()
+
+            def from_cache(e):
+                if isinstance(e, ast.Subscript):
+                    return from_cache(e.value)
+                if isinstance(e, ast.Call) and isinstance(e.func, ast.Attribute) and e.func.attr == "_get_cache":
+                    return True
+                if isinstance(e, ast.Attribute) and e.attr in ("_index_cache", "_count_cache"):
+                    return True
+                return isinstance(e, ast.Name) and e.id in tracked
+            changed = True
+            while changed:
+                changed = False
+                for n in ast.walk(fn):
+                    if isinstance(n, ast.Assign) and from_cache(n.value):
+                        for t in n.targets:
+                            for x in (t.elts if isinstance(t, (ast.Tuple, ast.List)) else [t]):
+                                if isinstance(x, ast.Name) and x.id not in tracked:
+                                    tracked.add(x.id)
+                                    changed = True
+            n_use += bool(tracked)
+            for n in ast.walk(fn):
+                bad = None
+                if isinstance(n, (ast.Assign, ast.AugAssign, ast.Delete)):
+                    tg = n.targets if not isinstance(n, ast.AugAssign) else [n.target]
+                    for t in tg:
+                        if isinstance(t, ast.Subscript) and from_cache(t.value):
+                            bad = n
+                elif isinstance(n, ast.Call) and isinstance(n.func, ast.Attribute) and n.func.attr in MUT and from_cache(n.func.value):
+                    bad = n
+                if bad is not None:
+                    col.add(rule, f"{c.name}.{mname}#cache-entries-only-from-_make_cache", False, mod.loc(bad),
+                            "only _make_cache decides what the row-name cache holds", A.src(bad)[:80], positive=True)
+    if n_use < 3:
+        raise AnalysisError("row-name cache: fewer than 3 functions take the cache from _get_cache() -- anchor lost, cannot decide")
+    col.ok(rule, "Table#cache-entries-only-from-_make_cache", mod.loc(repo.cls("Table").node),
+           "only _make_cache decides what the row-name cache holds", f"{n_fn} functions of xdeps/table.py scanned, {n_use} take the cache")
+
+
+def _memo_inputs_invalidate(col, rule="C07.R1"):
+    """whatever a Table method keeps on the table between calls (the row-name cache, or any other memo attribute) is computed only from
+    table settings whose assignment invalidates the caches: a memo that read another setting answers for the old one after it changed"""
+    repo = col.repo
+    T = repo.cls("Table")
+    init = T.methods.get("__init__")
+    inv = T.methods.get("_invalidate_cache")
+    seti = T.methods.get("__setitem__")
+    if init is None or inv is None or seti is None:
+        raise AnalysisError("Table.__init__/_invalidate_cache/__setitem__ missing -- cannot decide")
+    params = {a.arg for a in init.args.args + init.args.kwonlyargs}
+    dicts = [n for n in ast.walk(init) if isinstance(n, ast.Dict) and any(isinstance(k, ast.Constant) and k.value == "_index" for k in n.keys)]
+    if len(dicts) != 1:
+        raise AnalysisError("Table.__init__: the table of initial attributes is not recognised -- cannot decide")
+    settings, memos = set(), set()
+    for k, v in zip(dicts[0].keys, dicts[0].values):
+        if not (isinstance(k, ast.Constant) and isinstance(k.value, str)):
+            raise AnalysisError("Table.__init__: computed attribute name -- cannot decide")
+        if isinstance(v, ast.Name) and v.id in params:
+            settings.add(k.value)
+        elif (isinstance(v, ast.Constant) and v.value is None) or (isinstance(v, (ast.Dict, ast.List, ast.Set)) and not (getattr(v, "keys", None) or getattr(v, "elts", None))) \
+                or (isinstance(v, ast.Call) and isinstance(v.func, ast.Name) and v.func.id in ("dict", "list", "set", "defaultdict", "OrderedDict")):
+            memos.add(k.value)
+    for n in ast.walk(inv):
+        if isinstance(n, ast.Call) and A.dotted(n.func) == "object.__setattr__" and len(n.args) == 3 and isinstance(n.args[1], ast.Constant):
+            memos.add(n.args[1].value)
+        if isinstance(n, ast.Attribute) and isinstance(n.ctx, ast.Store) and _is_self_attr(n):
+            memos.add(n.attr)
+    if not {"_index_cache", "_count_cache"} <= memos or not {"_index", "_sep_count", "_sep_previous", "_sep_next"} <= settings:
+        raise AnalysisError(f"Table: memo attributes {sorted(memos)} / settings {sorted(settings)} not as expected -- cannot decide")
+    # the names whose assignment drops the caches (read off the normal form of __setitem__, as rule R1 does)
+    ssx = tctx(repo, "__setitem__")
+    key = ssx.P(0)
+    invalidating = set()
+    for i_ in _invalidations(ssx):
+        for c in ssx.conds(i_):
+            for p_ in (list(c[2]) if (c[:1] == ("bool",) and c[1] == "or") else [c]):
+                if p_[:1] == ("cmp",) and p_[1] == "==":
+                    for a, b in ((p_[2], p_[3]), (p_[3], p_[2])):
+                        if a == key and b[:1] == ("const",) and b[1][:1] in ("'", '"'):
+                            invalidating.add(b[1][1:-1])
+                if p_[:1] == ("cmp",) and p_[1] == "in" and p_[2] == key and p_[3][:1] in (("tuple",), ("list",), ("set",)):
+                    invalidating |= {x[1][1:-1] for x in p_[3][1] if x[:1] == ("const",) and x[1][:1] in ("'", '"')}
+    if not invalidating:
+        raise AnalysisError("Table.__setitem__: which attribute names drop the caches is not recognised -- cannot decide")
+
+    def reads(name, depth=3, seen=None):
+        seen = seen if seen is not None else {name}
+        sx_ = tctx(repo, name)
+        out = {}
+        for n in ast.walk(sx_.fn):
+            if _is_self_attr(n, settings) and isinstance(n.ctx, ast.Load):
+                out.setdefault(n.attr, sx_.loc(n))
+            if depth and isinstance(n, ast.Call) and _is_self_attr(n.func) and n.func.attr in T.methods and n.func.attr not in seen \
+                    and n.func.attr not in T.properties:
+                seen.add(n.func.attr)
+                for k_, v_ in reads(n.func.attr, depth - 1, seen).items():
+                    out.setdefault(k_, sx_.loc(n))
+        return out
+    n_writers = 0
+    for mname, fn in T.methods.items():
+        if mname in ("__init__", "_invalidate_cache", "__setstate__") or mname in T.properties or (_private_helper(mname)):
+            continue
+        sx_ = tctx(repo, mname)
+        wrote = set()
+        for ev, m in sx_.calls_some(("call", OBJ_SETATTR, (S.SELF, S.V("k"), S.V("v")), ())):
+            if m["k"][:1] == ("const",) and m["k"][1][1:-1] in memos and m["v"] != ("const", "None"):
+                wrote.add(m["k"][1][1:-1])
+        for ev in sx_.of_kind("store"):
+            for t_ in S.alts(ev.target):
+                if t_[:1] == ("sub",) and S.is_attr(t_[1], S.SELF) and t_[1][2] in memos:
+                    wrote.add(t_[1][2])
+        for ev, m in sx_.calls_some(("call", ("attr", S.V("o", lambda t_: S.is_attr(t_, S.SELF) and t_[2] in memos),
+                                              S.V("m", lambda t_: t_ in ("update", "setdefault", "__setitem__"))), S.ANY, S.ANY)):
+            wrote.add(m["o"][2])
+        if not wrote:
+            continue
+        n_writers += 1
+        rd = reads(mname)
+        stale = sorted(set(rd) - invalidating)
+        col.add(rule, f"Table.{mname}#memo-reads-only-invalidating-settings", not stale, rd[stale[0]] if stale else sx_.loc(sx_.fn),
+                f"what {mname} keeps in {sorted(wrote)} depends only on settings whose assignment drops the caches ({sorted(invalidating)})",
+                f"reads {sorted(rd)}; not invalidating: {stale}")
+    if n_writers < 1:
+        raise AnalysisError("Table: no method fills the row-name cache -- anchor lost, cannot decide")
+
+
 def check(col: Collector):
+    with col.rule():
+        _cache_written_only_by_its_builder(col)
+    with col.rule():
+        _memo_inputs_invalidate(col)
     with col.rule():
         _derived_tables_parse_alike(col)
     with col.rule():
